@@ -166,7 +166,22 @@ type runner struct {
 	target string // deliver mode: mailbox the BeforeMessageStored listener routes to
 }
 
+// resolve maps a handle to the id string handed to the store. A decorated spelling (z<n>.<v>) is judged "does not
+// exist" by the model, so it must never BE an id the store issued: on the memory store ids are small numbers and a
+// doubled or zero-extended id can be one ("1"+"1" = "11", the eleventh message) - such a candidate is replaced.
 func (r *runner) resolve(mb int, h string) string {
+	c := r.resolve0(mb, h)
+	if strings.HasPrefix(h, "z") && mb < len(r.ids) {
+		for _, id := range r.ids[mb] {
+			if id == c {
+				return "no-such-id"
+			}
+		}
+	}
+	return c
+}
+
+func (r *runner) resolve0(mb int, h string) string {
 	switch {
 	case h == "l":
 		return "latest"
